@@ -67,7 +67,9 @@ RESET = "\033[0m"
 
 
 def location_or_default(location):
-    if not location:
+    # A synthetic location has no position (it is falsy), but its is_synthetic
+    # flag is what keeps errors in synthesized IR away from the user.
+    if location is None or not (location or location.is_synthetic):
         return parser_types.SourceLocation((0, 0), (0, 0))
     return location
 
